@@ -91,7 +91,12 @@ def dir_items(draw, depth, full, gopher_ok, toplevel, max_items=5, kinds=None, l
                     "remote": draw(st.lists(st.sampled_from(["3Sorry, this has moved\t\terror.host\t1", "2Phone book\t\tcso.example.org\t105",
                                                               "8Library catalogue\tguest\ttelnet.example.org\t23",
                                                               "TMainframe\t\ttn.example.org\t23", "7Search the other site\t/v2/vs\tgopher.example.org\t70",
-                                                              "3Error with a selector\t/gone\tother.example.org\t70"]), max_size=2, unique=True))}
+                                                              "3Error with a selector\t/gone\tother.example.org\t70",
+                                                              # links to URLs (doc/standards/url.txt: items of THIS server that a Gopher client
+                                                              # asks for and gets a redirect page), in schemes of all kinds
+                                                              "hThe web site\tURL:http://www.example.org/", "hChat with us\tURL:irc://irc.example.org/gopher",
+                                                              "hShell account\tURL:ssh://shell.example.org/", "hSources\tURL:git://git.example.org/p.git"]),
+                                        max_size=2, unique=True))}
         elif kind == "mapfile":
             # a menu that is a file: '<name>.gophermap' (info lines and a link back to the root)
             name = name.split(".")[0] + ".gophermap"
